@@ -45,6 +45,15 @@ func (e *Exec) nondetScalar(kind string, w int) *Node {
 	return e.fresh(kind, w)
 }
 
+// hiddenFresh: engine-only nondeterminism (clock readings, random transaction
+// ids) that the native run draws from the real environment; it is not part of
+// the replay vector. When pinned (translator validation) it is 0-based
+// deterministic filler.
+func (e *Exec) hiddenFresh(kind string, w int) *Node {
+	e.nvar++
+	return e.tb.Var(fmt.Sprintf("env!%d_%s", e.nvar, kind), w)
+}
+
 func (e *Exec) nondetChoice(n int) int {
 	if v, ok := e.nextPin(); ok {
 		k := 0
@@ -491,25 +500,172 @@ func registerIntercepts(g *Engine) {
 		// Time{wall: hasMonotonic, ext: monotonic reading, loc: nil}; the real
 		// Time methods run on it. Readings are non-decreasing along a path.
 		t := e.tb
-		ext := e.nondetScalar("u64", 64)
+		ext := e.hiddenFresh("now", 64)
 		lo := t.Const(64, 1<<40)
 		if e.lastNow != nil {
 			lo = e.lastNow
 		}
-		c := t.BAnd(t.Cmp(OSle, lo, ext), t.Cmp(OSle, ext, t.Const(64, 1<<61)))
-		if e.pin != nil {
-			if !c.IsTrue() {
-				panic(pathEnd{EndInfeasible, "pinned clock not monotonic"})
-			}
-		} else {
-			e.assume(c)
+		hi := t.Const(64, 1<<61)
+		if e.lastNow != nil {
+			hi = t.Bin(OAdd, e.lastNow, t.Const(64, 1_000_000)) // successive readings within one step: <= 1 ms apart
 		}
+		e.assume(t.BAnd(t.Cmp(OSle, lo, ext), t.Cmp(OSle, ext, hi)))
 		e.lastNow = ext
 		return StructVal{t.Const(64, 1<<63), ext, PtrVal{}}
 	}
 	ic["time.runtimeNano"] = func(e *Exec, fn *ssa.Function, a []Value) Value {
 		tv := ic["time.Now"](e, fn, nil).(StructVal)
 		return tv[1]
+	}
+	// Monotonic-clock arithmetic without the saturation branches: readings lie
+	// in [2^40, 2^61 + small], so differences and sums cannot overflow. The
+	// wall-clock half of Time is not modelled (wall = hasMonotonic only).
+	ic["time.subMono"] = func(e *Exec, fn *ssa.Function, a []Value) Value {
+		return e.tb.Bin(OSub, e.scalar(a[0]), e.scalar(a[1]))
+	}
+	isMono := func(e *Exec, tv StructVal) bool {
+		w := e.scalar(tv[0])
+		return w.IsConst() && w.val == 1<<63
+	}
+	isZeroTime := func(e *Exec, tv StructVal) bool {
+		w, x := e.scalar(tv[0]), e.scalar(tv[1])
+		return w.IsConst() && x.IsConst() && w.val == 0 && x.val == 0
+	}
+	ic["(time.Time).Add"] = func(e *Exec, fn *ssa.Function, a []Value) Value {
+		tv := a[0].(StructVal)
+		if isMono(e, tv) {
+			return StructVal{tv[0], e.tb.Bin(OAdd, e.scalar(tv[1]), e.scalar(a[1])), tv[2]}
+		}
+		return e.passthrough(fn, a)
+	}
+	// time.Since on the zero Time (never received): saturates to maxDuration
+	// exactly as Time.Sub does for year-1 instants; avoids a 64-bit x 10^9.
+	ic["time.Since"] = func(e *Exec, fn *ssa.Function, a []Value) Value {
+		tv := a[0].(StructVal)
+		if isZeroTime(e, tv) {
+			return e.tb.Const(64, uint64(1<<63-1))
+		}
+		if isMono(e, tv) {
+			now := ic["time.Now"](e, fn, nil).(StructVal)
+			return e.tb.Bin(OSub, e.scalar(now[1]), e.scalar(tv[1]))
+		}
+		return e.passthrough(fn, a)
+	}
+	ic["(time.Time).Sub"] = func(e *Exec, fn *ssa.Function, a []Value) Value {
+		t1, t2 := a[0].(StructVal), a[1].(StructVal)
+		if isMono(e, t1) && isMono(e, t2) {
+			return e.tb.Bin(OSub, e.scalar(t1[1]), e.scalar(t2[1]))
+		}
+		if isMono(e, t1) && isZeroTime(e, t2) {
+			return e.tb.Const(64, uint64(1<<63-1))
+		}
+		return e.passthrough(fn, a)
+	}
+
+	// ----- pion/stun crypto: contracts instead of HMAC-SHA1 / random ids -----
+	ic["github.com/pion/stun/v3.newHMAC"] = func(e *Exec, fn *ssa.Function, a []Value) Value {
+		// MAC contract: the tag is an injective function of the key (so
+		// valid(k1) and valid(k2) imply k1 = k2); message content is not bound.
+		key := e.bytesOfSlice(a[0].(SliceVal))
+		out := make([]*Node, 20)
+		for i := range out {
+			out[i] = e.tb.Const(8, 0)
+		}
+		if len(key) <= 19 {
+			out[0] = e.tb.Const(8, uint64(len(key)))
+			copy(out[1:], key)
+		} else {
+			kb, ok := e.concreteBytes(a[0].(SliceVal))
+			if !ok {
+				panic(e.unsupported("MAC key longer than 19 bytes must be concrete"))
+			}
+			h := sha1sum(kb)
+			out[0] = e.tb.Const(8, 0xFE)
+			for i := 0; i < 19; i++ {
+				out[1+i] = e.tb.Const(8, uint64(h[i]))
+			}
+		}
+		return e.sliceFromBytes(out)
+	}
+	txid := func(e *Exec, l *Loc) {
+		for i := 0; i < 12; i++ {
+			l.sub[i].v = e.hiddenFresh("txid", 8)
+		}
+	}
+	ic["(*github.com/pion/stun/v3.Message).NewTransactionID"] = func(e *Exec, fn *ssa.Function, a []Value) Value {
+		m := e.derefLoc(a[0].(PtrVal))
+		st := m.typ.Underlying().(*types.Struct)
+		for i := 0; i < st.NumFields(); i++ {
+			if st.Field(i).Name() == "TransactionID" {
+				txid(e, m.sub[i])
+			}
+		}
+		w := e.eng.prog.LookupMethod(types.NewPointer(m.typ), nil, "WriteTransactionID")
+		e.call(w, []Value{a[0]}, nil, e.curFrame)
+		return IfaceVal{}
+	}
+	ic["github.com/pion/stun/v3.NewTransactionID"] = func(e *Exec, fn *ssa.Function, a []Value) Value {
+		l := e.newLoc(fn.Signature.Results().At(0).Type())
+		txid(e, l)
+		return e.loadLoc(l)
+	}
+
+	// † taskloop.Run: C10's contract, assumed: ErrClosed when the loop is
+	// closed, ctx.Err() when the context is done, else the task runs
+	// synchronously to completion.
+	ic["(*github.com/pion/ice/v4/internal/taskloop.Loop).Run"] = func(e *Exec, fn *ssa.Function, a []Value) Value {
+		l := e.derefLoc(a[0].(PtrVal))
+		st := l.typ.Underlying().(*types.Struct)
+		var done ChanVal
+		for i := 0; i < st.NumFields(); i++ {
+			if st.Field(i).Name() == "done" {
+				done = l.sub[i].v.(ChanVal)
+			}
+		}
+		errClosed := func() Value {
+			g := e.eng.pkgs["github.com/pion/ice/v4/internal/taskloop"].Members["ErrClosed"].(*ssa.Global)
+			return e.loadLoc(e.globalLoc(g))
+		}
+		if done.c != nil && done.c.closed {
+			return errClosed()
+		}
+		ctx := a[1].(IfaceVal)
+		if ctx.t == nil {
+			panic(e.panicEnd("nil context"))
+		}
+		dm := e.eng.prog.LookupMethod(ctx.t, nil, "Done")
+		if dch, ok := e.call(dm, []Value{ctx.v}, nil, e.curFrame).(ChanVal); ok && dch.c != nil && dch.c.closed {
+			em := e.eng.prog.LookupMethod(ctx.t, nil, "Err")
+			return e.call(em, []Value{ctx.v}, nil, e.curFrame)
+		}
+		e.callFuncVal(a[2].(FuncVal), []Value{IfaceVal{t: types.NewPointer(l.typ), v: a[0]}}, e.curFrame)
+		return IfaceVal{}
+	}
+
+	// random identifiers
+	ic["(*github.com/pion/ice/v4.candidateIDGenerator).Generate"] = func(e *Exec, fn *ssa.Function, a []Value) Value {
+		e.idCounter++
+		return e.strConst(fmt.Sprintf("candidate:verif%027d", e.idCounter))
+	}
+	ic["github.com/pion/randutil.GenerateCryptoRandomString"] = func(e *Exec, fn *ssa.Function, a []Value) Value {
+		n := e.concreteInt(a[0])
+		b := make([]*Node, n)
+		for i := range b {
+			b[i] = e.hiddenFresh("rnd", 8)
+		}
+		return TupleVal{StringVal{b: b}, IfaceVal{}}
+	}
+
+	// unique.Make: canonical object per concrete value
+	ic["unique.Make"] = func(e *Exec, fn *ssa.Function, a []Value) Value {
+		key := fn.String() + "|" + e.concreteKey(a[0])
+		l, ok := e.uniq[key]
+		if !ok {
+			l = e.newLoc(fn.Signature.Params().At(0).Type())
+			e.storeLoc(l, a[0])
+			e.uniq[key] = l
+		}
+		return StructVal{PtrVal{loc: l}}
 	}
 
 	// ----- fmt / logging -----
@@ -548,6 +704,30 @@ func registerIntercepts(g *Engine) {
 	}
 
 	registerStdlib(g)
+}
+
+// concreteKey renders a value built of concrete scalars/strings/structs.
+func (e *Exec) concreteKey(v Value) string {
+	switch x := v.(type) {
+	case *Node:
+		if !x.IsConst() {
+			panic(e.unsupported("unique.Make of symbolic value"))
+		}
+		return fmt.Sprintf("%d:%d", x.w, x.val)
+	case StringVal:
+		c, ok := x.Concrete()
+		if !ok {
+			panic(e.unsupported("unique.Make of symbolic string"))
+		}
+		return fmt.Sprintf("%q", c)
+	case StructVal:
+		s := "{"
+		for _, f := range x {
+			s += e.concreteKey(f) + ","
+		}
+		return s + "}"
+	}
+	panic(e.unsupported(fmt.Sprintf("unique.Make of %T", v)))
 }
 
 type crcRec struct {
